@@ -211,7 +211,7 @@ class Pool:
                 prog, circ = programs.random_program(rng, n_e, n_p, 1, int(rng.integers(2, 12)), alphabet=alphabet)
             else:
                 from .c18 import gen_A      # solver vocabulary: emitter-controlled two-qubit operations only
-                prog, circ = gen_A(rng)
+                prog, circ = gen_A(rng, allow_big=False)    # the pool circuits are also compiled with the density-matrix backend
             self.objs[f"circuit{k}"] = circ
             self.progs[f"circuit{k}"] = prog
         # targets
